@@ -86,6 +86,15 @@ def extras(ctx, thorough):
             q['repeat'] = 120 if thorough else 60
             q['bodyn'], q['method'] = 0, 'GET'
         out.append(sc)
+    # two Clients in one process share the pools: one with a short response timeout is busy for a while, then one WITHOUT a
+    # timeout makes its requests - each returns with its answer, whatever the pooled context it was handed last carried
+    for tmo in (20, 60):
+        sc = _scen('rt-two-clients', {}, 100, rng, nreq=4, timeoutms=tmo, defreact='ok')
+        for q in sc['reqs']:
+            q['repeat'] = 10
+            q['bodyn'], q['method'] = 0, 'GET'
+        sc['reqs'] += [{"tag": 500 + i, "method": "GET", "bodyn": 0, "atms": 4 * tmo + 100, "c2": True, "repeat": 2} for i in range(3)]
+        out.append(sc)
     # dialling fails once the first connection(s) are used up
     for at in (1, 2):
         out.append(_scen('rt-dialfail', {1: ["ga_below", "ok"], 2: ["close"], 3: ["ok"]}, 1, rng, dialfailat=at))
